@@ -72,6 +72,14 @@ class FitX(_Base):
         return self._train(X, None, None)
 
 
+class CrossFitted(FitXYW):
+    """a transformer whose own fit_transform is NOT fit().transform() (cross-fitted encoders, NMF...)"""
+
+    def fit_transform(self, X, y=None, **kw):
+        self.fit(X, y, **kw)
+        return self.transform(X) + 100
+
+
 class NoTransform(_Core):
     def fit(self, X, y=None, sample_weight=None):
         return self._train(X, y, sample_weight)
@@ -173,6 +181,13 @@ def sc_learner(cfg):
         X2, y2, w2 = _data(C, n, "u")
         est.fit(X2, y2)
         _cells(C, est.transform(Xq), ref(method, trained(a, X2, y2, None), Xq), "transform-follows-a-refit")
+        if cfg["method"] == 3:
+            # fit_transform of the wrapper (what Pipeline.fit calls) is fit followed by transform of the wrapper, also
+            # around a model whose own fit_transform answers something else
+            cf = CrossFitted(a)
+            lw = L(cf, "transform")
+            out_ft = lw.fit_transform(X, y)
+            _cells(C, out_ft, ref("transform", trained(a, X, y, None), X), "fit_transform==fit-then-transform-of-the-wrapped-model")
         if cfg["method"] != 4:
             # history: the wrapped model is replaced through set_params (alone: a grid over <step>__model does that),
             # then fit and transform: the outputs are the NEW model's
@@ -204,6 +219,9 @@ def sc_stacking(cfg):
         meth = METHODS[cfg["method"]] if cfg["wrap"] else None
         est = S(models, meth) if cfg["wrap"] else S(models)
         X, y, w = _data(C, n, "t")
+        if cfg.get("int_X"):
+            # counts: an integer-typed feature matrix -- every member is trained on it as a direct fit would be
+            X = sx.int_array([[sx.strunc(v) for v in row] for row in X]) if C.symbolic else numpy.array([[int(float(v)) for v in row] for row in X], dtype=numpy.int64)
         mod = loader.load("sklapi.sklearn_base_transform_stacking")
         stack_np = harness.patched(mod, numpy=sx.TypedNumpy()) if C.symbolic else harness.patched(mod)
         wgt = w if cfg.get("weighted") else None
@@ -363,6 +381,7 @@ def configs(tier):
         out.append(dict(kind="stacking", N=N, rows=2, wrap=True, method=0, int_first=True))
     for wrap in (False, True):
         out.append(dict(kind="stacking", N=2, rows=2, wrap=wrap, method=0, weighted=True))
+        out.append(dict(kind="stacking", N=2, rows=2, wrap=wrap, method=0, int_X=True))
     for trainable in (False, True):
         out.append(dict(kind="transfer_inplace", trainable=trainable))
     out.append(dict(kind="transfer_composite"))
